@@ -29,7 +29,10 @@ use noodles_sam::{
     },
     header::record::value::{
         Map,
-        map::{self, ReferenceSequence, header::{sort_order::COORDINATE, tag::SORT_ORDER}},
+        map::{
+            self, ReferenceSequence,
+            header::{sort_order::COORDINATE, tag::SORT_ORDER},
+        },
     },
 };
 use noodles_vcf::{self as vcf, variant::io::Write as _};
